@@ -15,7 +15,7 @@ import itertools
 
 PROPERTY = "C09"
 LEVEL = "proof"
-LEAN_MODULES = ["Exetera.Props.C09", "Exetera.Witness.C09"]
+LEAN_MODULES = ["Exetera.Props.C09", "Exetera.Props.C09Sort", "Exetera.Witness.C09"]
 THEOREMS = []
 EXHAUSTIVE = {"quick": True, "thorough": True}
 CASE_TIMEOUT = 240    # first numba compile on a loaded machine; an alarm landing inside the compiler corrupts it
